@@ -37,6 +37,7 @@ type ReadFileRec struct {
 type watch struct {
 	ino  *inode
 	path string
+	dir  bool // watch on a directory: events of every entry, the watch survives replacement of the entries
 }
 
 // Watcher replaces fsnotify.Watcher.
@@ -88,7 +89,7 @@ func (s *Sim) push(ino *inode, op fsnotify.Op, removeWatch bool) {
 			continue
 		}
 		for i := 0; i < len(w.watches); i++ {
-			if w.watches[i].ino != ino {
+			if w.watches[i].dir || w.watches[i].ino != ino {
 				continue
 			}
 			ev := fsnotify.Event{Name: w.watches[i].path, Op: op}
@@ -121,6 +122,60 @@ func (s *Sim) push(ino *inode, op fsnotify.Op, removeWatch bool) {
 	}
 }
 
+// pushDir queues an event for every watcher of the directory that contains path (calibrated against fsnotify
+// v1.8.0: the event name is the entry's path; the directory watch is never lost).
+//
+//go:norace
+func (s *Sim) pushDir(path string, op fsnotify.Op) {
+	dir := dirOf(path)
+	for _, w := range s.watchers {
+		if w.dead || w.closed {
+			continue
+		}
+		for i := range w.watches {
+			if !w.watches[i].dir || w.watches[i].path != dir {
+				continue
+			}
+			ev := fsnotify.Event{Name: path, Op: op}
+			if n := len(w.queue); n > 0 && w.queue[n-1] == ev && s.Tape.Draw(2) == 1 {
+				s.FaultsFired[FEvCoalesce]++
+			} else if len(w.queue) < w.maxQ {
+				w.queue = append(w.queue, ev)
+			}
+		}
+		s.ChanWake()
+	}
+}
+
+//go:norace
+func dirOf(path string) string {
+	for i := len(path) - 1; i > 0; i-- {
+		if path[i] == '/' {
+			return path[:i]
+		}
+	}
+	if len(path) > 0 && path[0] == '/' {
+		return "/"
+	}
+	return "."
+}
+
+// FSRegisterDir marks a path as a simulated directory (it can be watched).
+//
+//go:norace
+func (s *Sim) FSRegisterDir(path string) { s.simDirs = append(s.simDirs, path) }
+
+// FSCreateEvent creates a file and reports it to directory watchers (create(2) + write(2)).
+//
+//go:norace
+func (s *Sim) FSCreateEvent(path string, data []byte) {
+	s.FSCreate(path, data)
+	s.pushDir(path, fsnotify.Create)
+	if len(data) > 0 {
+		s.pushDir(path, fsnotify.Write)
+	}
+}
+
 // FSCreate creates (or replaces the content of) a file without events (initial state).
 //
 //go:norace
@@ -144,6 +199,7 @@ func (s *Sim) FSTruncate(path string) {
 	}
 	f.ino.data = f.ino.data[:0]
 	s.push(f.ino, fsnotify.Write, false)
+	s.pushDir(path, fsnotify.Write)
 }
 
 // FSAppend is one write(2) at the end of the file.
@@ -156,6 +212,7 @@ func (s *Sim) FSAppend(path string, chunk []byte) {
 	}
 	f.ino.data = rawAppend(f.ino.data, chunk)
 	s.push(f.ino, fsnotify.Write, false)
+	s.pushDir(path, fsnotify.Write)
 }
 
 // FSChmod is chmod(2).
@@ -164,6 +221,7 @@ func (s *Sim) FSAppend(path string, chunk []byte) {
 func (s *Sim) FSChmod(path string) {
 	if f := s.lookup(path); f != nil {
 		s.push(f.ino, fsnotify.Chmod, false)
+		s.pushDir(path, fsnotify.Chmod)
 	}
 }
 
@@ -176,6 +234,7 @@ func (s *Sim) FSRenameOver(path string, data []byte) {
 	n := &inode{id: nextIno, data: rawCopy(data), nlink: 1}
 	if f == nil {
 		s.files = append(s.files, &simFile{path: path, ino: n})
+		s.pushDir(path, fsnotify.Create)
 		return
 	}
 	old := f.ino
@@ -184,6 +243,11 @@ func (s *Sim) FSRenameOver(path string, data []byte) {
 	// the replaced inode: IN_ATTRIB (link count), IN_DELETE_SELF, IN_IGNORED
 	s.push(old, fsnotify.Chmod, false)
 	s.push(old, fsnotify.Remove, true)
+	// directory watchers see the temporary file appear and move onto the name (IN_MOVED_TO -> Create)
+	s.pushDir(path+".tmp", fsnotify.Create)
+	s.pushDir(path+".tmp", fsnotify.Write)
+	s.pushDir(path+".tmp", fsnotify.Rename)
+	s.pushDir(path, fsnotify.Create)
 }
 
 // FSUnlink is unlink(2).
@@ -199,6 +263,7 @@ func (s *Sim) FSUnlink(path string) {
 			f.ino.nlink--
 			s.push(f.ino, fsnotify.Chmod, false)
 			s.push(f.ino, fsnotify.Remove, true)
+			s.pushDir(path, fsnotify.Remove)
 			return
 		}
 	}
@@ -214,6 +279,8 @@ func (s *Sim) FSRenameAway(path, to string) {
 	}
 	f.path = to
 	s.push(f.ino, fsnotify.Rename, true)
+	s.pushDir(path, fsnotify.Rename)
+	s.pushDir(to, fsnotify.Create)
 }
 
 // ArmReadFileErr makes the n-th ReadFile from now fail with EIO.
@@ -319,6 +386,17 @@ func (w *Watcher) Add(name string) error {
 	if w.closed {
 		return fsnotify.ErrClosed
 	}
+	for _, d := range s.simDirs {
+		if d == name || d == cleanPath(name) {
+			for _, x := range w.watches {
+				if x.dir && x.path == d {
+					return nil
+				}
+			}
+			w.watches = append(w.watches, watch{path: d, dir: true})
+			return nil
+		}
+	}
 	f := s.lookup(name)
 	if f == nil {
 		return &os.PathError{Op: "inotify_add_watch", Path: name, Err: syscall.ENOENT}
@@ -330,6 +408,14 @@ func (w *Watcher) Add(name string) error {
 	}
 	w.watches = append(w.watches, watch{ino: f.ino, path: name})
 	return nil
+}
+
+//go:norace
+func cleanPath(p string) string {
+	for len(p) > 1 && p[len(p)-1] == '/' {
+		p = p[:len(p)-1]
+	}
+	return p
 }
 
 //go:norace
